@@ -80,6 +80,17 @@ theorem fast_write_decodes (P : Prog) (hN : NoOptBin P) (sidx : Nat) (obj : GoVa
   rw [normW_ttype, htt] at this
   simpa [Ty.ttype] using this
 
+/-- **byte identity for schemas in id order**: when every struct-like declares its fields in non-decreasing id order
+(the common style), FastAppend writes exactly the bytes the standard Write writes. -/
+theorem fast_write_eq_std_sorted (P : Prog) (hN : NoOptBin P) (hS : SortedSchema P) (sidx : Nat) (obj : GoVal) (bs : Bytes)
+    (fuel : Nat) (hwt : WT P.structs (.struct sidx) obj) (h : write P sidx obj = .ok bs) (hf : bs.length ≤ fuel) :
+    fastWrite P fuel sidx obj = .ok bs := by
+  simp only [write, Res.bind_eq_ok] at h
+  obtain ⟨w, hw, hb⟩ := h
+  cases hb
+  have hd : w.depth ≤ fuel := by have := depth_le_len w; omega
+  rw [fast_write_is_std P hN sidx obj w fuel hwt hw hd, normW_id P hS obj (.struct sidx) w hwt hw]
+
 /-- **FastRead refines the standard Read** on EVERY byte string: whenever the generated `Read` (Gen.Std) accepts an
 input, the generated `FastRead` linked with gopkg accepts it too, builds the same object (same required-field
 bookkeeping, same skipping of unknown ids and of known ids with another wire type — the `fid<<8|ftyp` switch vs
